@@ -17,15 +17,16 @@ def run(ctx):
         ctx.exhaustive = False
     cases = pd.build_cases(recs, "inside", ctx.tier, ctx.seed, 2 if quick else 11)
     pd.replay(ctx, cases)
-    try:
-        from .. import curved_eval
-        curved_eval.run_inside2d(ctx)
-    except ImportError:
-        ctx.notes.append("curved 2-D shapes not yet covered by this check")
+    from .. import curved_eval
+    curved_eval.run_inside2d(ctx)
     ctx.extra["polygons"] = len(recs)
     return ctx.finish(rule=RULE, assumptions=[
         "query points exactly on the boundary are excluded (the property excludes a margin around the boundary)",
         "inputs are lattice polygons / half-lattice points under rational similarity placements"])
 
 
-replay = pd.replay_record
+def replay(rec):
+    if rec["signature"]["cls"] in ("Circle", "Ellipse"):
+        from .. import curved_eval
+        return curved_eval.replay_inside(rec)
+    return pd.replay_record(rec)
